@@ -131,6 +131,15 @@ pub const PATTERNS: [[u8; 8]; 12] = [
 /// In one payload of four (`sel` bits 20..=21 == 1) up to three 8-byte words
 /// of `body[from..]` are replaced by [`PATTERNS`].
 fn pattern_fill(body: &mut [u8], from: usize, key: u64, sel: u32) {
+    if (sel >> 20) & 3 == 2 && body.len() > from {
+        // one payload in four is a uniform fill with one byte value (all 256
+        // occur): zeroed memory, 0xFF erase patterns, allocator poison bytes
+        let b = (sel >> 22) as u8;
+        for x in body[from..].iter_mut() {
+            *x = b;
+        }
+        return;
+    }
     if (sel >> 20) & 3 != 1 || body.len() < from + 8 {
         return;
     }
@@ -216,6 +225,18 @@ pub fn conformant_tag(kind: u32, key: u64, n: usize, sel: u32) -> Vec<u8> {
             if (sel >> 9) & 3 != 0 {
                 body[20] = [1u8, 2, 4, 8, 15, 16, 24, 32][((sel >> 11) & 7) as usize];
             }
+            // every second tag: an address and a geometry that occur in practice
+            // (EGA text buffer, VGA window, PCI BARs; text and VESA modes)
+            if (sel >> 14) & 1 == 1 {
+                use crate::realistic::*;
+                let wi = WIDTHS[marker(key, 1) as usize % WIDTHS.len()];
+                let he = HEIGHTS[marker(key, 2) as usize % HEIGHTS.len()];
+                put64(&mut body, 0, FB_ADDRS[marker(key, 3) as usize % FB_ADDRS.len()]);
+                let bpp = body[20] as u32;
+                put32(&mut body, 8, wi.wrapping_mul(bpp) / 8);
+                put32(&mut body, 12, wi);
+                put32(&mut body, 16, he);
+            }
             match ty {
                 0 => {
                     body.extend_from_slice(&(n as u16).to_le_bytes());
@@ -227,6 +248,27 @@ pub fn conformant_tag(kind: u32, key: u64, n: usize, sel: u32) -> Vec<u8> {
             }
             tag(8, &body)
         }
+        9 if (sel >> 30) & 3 == 1 => {
+            // The layout of the specification's text: u16 num, u16 entsize, u16
+            // shndx, u16 reserved, then the headers (boot loaders write three
+            // u32 words instead, which is what the crate reads; read that way
+            // this tag announces an absurd count). All headers refer to the
+            // harness-owned names; the string-table index is inside the table
+            // or, in one tag of four, beyond it.
+            let es: usize = if sel & 1 == 0 { 40 } else { 64 };
+            let n = n.max(1);
+            let mut body = vec![0u8; 8 + n * es];
+            put16(&mut body, 0, n as u16);
+            put16(&mut body, 2, es as u16);
+            let shndx = if (sel >> 8) & 3 == 0 { [n as u16, 0x00ff, 0x7fff, 0xffff][((sel >> 10) & 3) as usize] } else { ((sel >> 1) as usize % n) as u16 };
+            put16(&mut body, 4, shndx);
+            for e in 0..n {
+                let t = ELF_TYPES[((sel >> 4) as usize + e * 7) % ELF_TYPES.len()];
+                let h = crate::realistic::elf_section_header(es, crate::elfnames::NAME_OFFS[(key as usize + e) % 9], if e == 0 { 0 } else { t }, 6, crate::elfnames::base().unwrap_or(0x10_0000) as u64, 0x40, 0, key, e);
+                body[8 + e * es..8 + (e + 1) * es].copy_from_slice(&h);
+            }
+            tag(9, &body)
+        }
         9 => {
             let es: usize = if sel & 1 == 0 { 40 } else { 64 };
             let mut body = w(key, 12 + n * es, 8);
@@ -235,9 +277,46 @@ pub fn conformant_tag(kind: u32, key: u64, n: usize, sel: u32) -> Vec<u8> {
             put32(&mut body, 4, es as u32);
             let shndx = if n == 0 { 0 } else { (sel >> 1) as usize % n };
             put32(&mut body, 8, shndx as u32);
+            let names = crate::elfnames::names();
             for e in 0..n {
+                let at = 12 + e * es;
                 let t = ELF_TYPES[((sel >> 4) as usize + e * 7) % ELF_TYPES.len()];
-                put32(&mut body, 12 + e * es + 4, t);
+                if (sel >> 12) & 3 == 1 {
+                    // a header as a linker writes it: small link index, power-of-two
+                    // alignment, the string table's true size
+                    let link = (marker(key, 700 + e) as usize % n) as u32;
+                    let size = if e == shndx { names.len() as u64 } else { 0x100 * (1 + e as u64) };
+                    let h = crate::realistic::elf_section_header(es, 0, t, (marker(key, 730 + e) % 8) as u64, 0x10_0000 * (e as u64 + 1), size, link, key, e);
+                    body[at..at + es].copy_from_slice(&h);
+                }
+                put32(&mut body, at + 4, t);
+                // half of the tags: every header's name offset and address refer to
+                // the harness-owned names buffer, so that name() is defined
+                if (sel >> 16) & 1 == 1 {
+                    if let Some(b) = crate::elfnames::base() {
+                        use crate::elfnames::NAME_OFFS;
+                        put32(&mut body, at, NAME_OFFS[(key as usize + e) % NAME_OFFS.len()]);
+                        if es == 40 {
+                            put32(&mut body, at + 12, b as u32);
+                        } else {
+                            put64(&mut body, at + 16, b as u64);
+                        }
+                        // size field: the true size of the names, something smaller
+                        // (a name offset may then lie behind it), or whatever is there
+                        let sz = match (sel >> 17) & 3 {
+                            0 => Some(names.len() as u64),
+                            1 => Some(marker(key, 760 + e) as u64 % names.len() as u64),
+                            _ => None,
+                        };
+                        if let Some(sz) = sz {
+                            if es == 40 {
+                                put32(&mut body, at + 20, sz as u32);
+                            } else {
+                                put64(&mut body, at + 32, sz);
+                            }
+                        }
+                    }
+                }
             }
             tag(9, &body)
         }
@@ -245,6 +324,14 @@ pub fn conformant_tag(kind: u32, key: u64, n: usize, sel: u32) -> Vec<u8> {
         11 | 19 | 21 => tag(kind, &w(key, 4, 8)),
         12 | 20 => tag(kind, &w(key, 8, 8)),
         13 => {
+            // one table blob in four is SMBIOS as firmware writes it: an entry
+            // point with valid checksums and/or a structure chain closed by the
+            // end-of-table structure, with bytes behind it
+            if (sel >> 16) & 3 == 1 {
+                let mut body = w(key, 8, 8);
+                body.extend(crate::realistic::blob((sel >> 18) as u8 % 3, key, n));
+                return tag(13, &body);
+            }
             let mut body = w(key, 8 + n, 8);
             pattern_fill(&mut body, 8, key, sel);
             // trailing zero bytes in the tables (they are content, not padding)
@@ -285,6 +372,9 @@ pub fn conformant_tag(kind: u32, key: u64, n: usize, sel: u32) -> Vec<u8> {
             tag(15, &body)
         }
         16 => {
+            if (sel >> 16) & 3 == 1 {
+                return tag(16, &crate::realistic::dhcp_ack(key, n % 32));
+            }
             let mut body = w(key, n, 8);
             pattern_fill(&mut body, 0, key, sel);
             if sel & 4 != 0 {
@@ -298,6 +388,14 @@ pub fn conformant_tag(kind: u32, key: u64, n: usize, sel: u32) -> Vec<u8> {
             let d = [40usize, 48, 56, 64][(sel % 4) as usize];
             let mut body = w(key, 8 + n * d, 8);
             pattern_fill(&mut body, 8, key, sel);
+            if (sel >> 10) & 1 == 1 {
+                // descriptors as firmware writes them: defined type numbers
+                // (incl. the terminator value 16), small page counts incl. 0
+                for j in 0..n {
+                    let e = crate::realistic::efi_descriptor(key, j, d);
+                    body[8 + j * d..8 + (j + 1) * d].copy_from_slice(&e);
+                }
+            }
             put32(&mut body, 0, d as u32);
             // descriptor version: 1 (the only one the crate iterates) in three of
             // four tags; the specification allows others
